@@ -3,12 +3,8 @@
   each in the model named by `family=`. One verdict line per scenario, then a summary.
 -/
 import MayVerif.Core.Trace
-import MayVerif.Model.Sync.MutexReplay
+import MayVerif.Driver.Machines
 open MayVerif
-
-def machines : List (String × Machine) := [
-  ("mutex", MayVerif.Mutex.machine)
-]
 
 structure Cur where
   m : Machine
